@@ -129,6 +129,18 @@ func runC01(c *Ctx) {
 		live := s.LivePatterns()
 		x := r.Intn(100)
 		switch {
+		case x < 8:
+			// a call that has to be rejected (reserved/unknown/repeated method somewhere in the list): nothing of it may be served
+			p := ref.Pick(r, st.pool)
+			ms := randomMethods(r, s)
+			if ms == nil {
+				ms = []string{"GET"}
+			}
+			k := r.Intn(len(ms) + 1)
+			ms = append(ms[:k:k], append([]string{ref.Pick(r, []string{"HEAD", "OPTIONS", "BOGUS", "", ms[0]})}, ms[k:]...)...)
+			ok, _, _ := s.Handle(p, ms, randomVia(r, p))
+			st.ops = append(st.ops, opRec{Op: "Handle(bad)", Pattern: p, Methods: ms, Result: fmt.Sprint(ok)})
+			c.Class("rejected_handle_in_history")
 		case x < 60 || len(live) == 0:
 			p := ref.Pick(r, st.pool)
 			ms := randomMethods(r, s)
